@@ -218,6 +218,7 @@ func runWalk(ch choose.Chooser, cfg walkCfg) (*walkRes, error) {
 	if err != nil {
 		return nil, err
 	}
+	w.noJumps = cfg.node.MaxCertSize > 0
 	m := newMAgglayer(w)
 	dbPath, clean := tmpDB("aggsender")
 	r := &walkRes{w: w, m: m, cleanup: func() { w.close(); clean() }, storageDir: dbPath}
